@@ -11,21 +11,22 @@ PROPERTY = "C09"
 LEVEL = "model_checking"
 ENGINE = "E-SCEN"
 RULE = (
-    "one probe unit over the full product in-baseline x in-feed (with results / row without results yet) x percent in {0,thr-1,thr,thr+1,100} x unit-blocklisted x state-blocklisted x "
+    "one probe unit over the full product in-baseline x in-feed (with results / row without results yet) x percent in {0, thr-1 or thr-0.4, thr, thr+1 or thr+0.5, 100 or 99.6} x unit-blocklisted x state-blocklisted x "
     "own state {AA,BB} x baseline {0,>0} x turnout factor {0.3, =lower, 1.0, =upper, 3.0} x limits {0.5/2.0, 0.8/1.25} x policy {drop,zero} x "
     "threshold {50,100} x weight basis {turnout, two-party}, on a 6-unit background, executed at the real CombinedDataHandler.get_units; pairs of "
     "probes over a reduced alphabet; outlier models on/off with 19..23 reporting units; every (dem,gop,turnout,baseline) in {0,1,7}^k through the real "
-    "Estimandizer; 30 runs through the public client with default and explicitly configured limits (including 0). Oracle: rule table of the statement, first applicable reason wins. non-trivial = the probe is not a plain fitting unit"
+    "Estimandizer; 30 runs through the public client with default and explicitly configured limits (including 0); 18 runs through the public client over both outlier-model switches in {omitted, off, on}^2. Oracle: rule table of the statement, first applicable reason wins. non-trivial = the probe is not a plain fitting unit"
 )
 ASSUMPTIONS = [
     "outlier models: checked that flagged ids (as returned by the real _fit_outlier_detection_model) are excluded with the outlier reason unless an earlier reason applies, that a disabled model is never consulted and an enabled one is consulted when more than 20 modelled units report",
 ]
 SELFCHECK_INDEX = 17
-PCT = {50: [0, 49, 50, 51, 100], 100: [0, 99, 100, 100.5, 100]}
+# index 2 is exactly the threshold; 49.6 / 99.6 round up to it but are below it
+PCT = {50: [0, 49.6, 50, 51, 100], 100: [0, 99, 100, 100.5, 99.6]}
 
 
 def bounds(tier):
-    return {"single_probe_product": "complete", "pairs": "reduced alphabet", "outlier_n": [19, 20, 21, 22, 23], "estimandizer_domain": "{0,1,7}"}
+    return {"single_probe_product": "complete", "pairs": "reduced alphabet (32 probe kinds)" if tier == "quick" else "all unordered pairs of the 400 probe kinds", "outlier_n": [19, 20, 21, 22, 23], "estimandizer_domain": "{0,1,7}"}
 
 
 def _probe_specs():
@@ -59,6 +60,11 @@ def cases(tier, seed):
     pairs = list(itertools.combinations_with_replacement(range(len(red)), 2))
     for i in range(0, len(pairs), 60):
         out.append({"kind": "pairs", "specs": red, "pairs": pairs[i : i + 60], "lim": "default", "policy": "zero" if (i // 60) % 2 else "drop", "thr": 100, "basis": "turnout", "seed": seed})
+    if tier == "thorough":
+        # every unordered pair of the complete single-probe alphabet (400 probe kinds), configuration rotating with the batch
+        pairs = list(itertools.combinations_with_replacement(range(len(specs)), 2))
+        for b, i in enumerate(range(0, len(pairs), 200)):
+            out.append({"kind": "pairs", "specs": specs, "pairs": pairs[i : i + 200], "lim": ["default", "custom"][b % 2], "policy": ["drop", "zero"][(b // 2) % 2], "thr": [100, 50][(b // 4) % 2], "basis": ["turnout", "twoparty"][(b // 8) % 2], "seed": seed})
     for n in (19, 20, 21, 22, 23, 30):
         for tmodel, mmodel, basis in itertools.product([False, True], [False, True], ["turnout", "twoparty"]):
             out.append({"kind": "outlier", "n": n, "turnout_model": tmodel, "margin_model": mmodel, "basis": basis, "seed": seed})
@@ -68,6 +74,10 @@ def cases(tier, seed):
         for upper in (None, 4.0):
             for status in ("tf_below", "tf_at_lower", "tf_at_upper", "tf_above", "zero_baseline"):
                 out.append({"kind": "client", "lower": lower, "upper": upper, "status": status, "seed": seed})
+    # the two outlier-model switches through the public client, in every combination (each switch must control its own model)
+    for tmodel, mmodel in itertools.product([None, False, True], repeat=2):
+        for basis in ("turnout", "twoparty"):
+            out.append({"kind": "client_outlier", "turnout_model": tmodel, "margin_model": mmodel, "basis": basis, "seed": seed})
     return out
 
 
@@ -254,6 +264,78 @@ def evaluate(case):
         cov["units_flagged_by_both_outlier_models"] += len(both)
         cov["outlier_consulted"] += len(flagged)
         outcomes.append((sorted(consulted), sorted(reason)))
+        nontrivial = True
+    elif kind == "client_outlier":
+        from elexmodel.handlers.data.CombinedData import CombinedDataHandler
+
+        est = ["margin"] if case["basis"] == "twoparty" else ["turnout"]
+        units = E.background(case["seed"], "G", 24, "AA2")
+        for i, u in enumerate(units[:2]):
+            two = int((u["b_dem"] + u["b_gop"]) * (1.9 if i == 0 else 1.0))
+            big, small = int(two * 0.95), two - int(two * 0.95)
+            u["r_dem"], u["r_gop"] = (big, small) if u["b_dem"] < u["b_gop"] else (small, big)
+            u["r_turnout"] = int(u["b_turnout"] * (1.9 if i == 0 else 1.0))
+        units.append(E.make_probe(case["seed"], 0, "nonrep_partial", "pop0", weights="twoparty" if case["basis"] == "twoparty" else "turnout"))
+        mp = {}
+        if case["turnout_model"] is not None:
+            mp["fit_turnout_outlier_model"] = case["turnout_model"]
+        if case["margin_model"] is not None:
+            mp["fit_margin_outlier_model"] = case["margin_model"]
+        if case["basis"] == "twoparty":
+            cfg = E.make_cfg(pi_method="bootstrap", estimands=est, features=["baseline_normalized_margin"], alphas=[0.7], aggregates=["postal_code", "unit"], model_parameters=dict(mp, B=5, lambda_=1.0))
+        else:
+            cfg = E.make_cfg(estimands=est, alphas=[0.7], aggregates=["postal_code", "unit"], model_parameters=mp)
+        consulted = []
+        orig = CombinedDataHandler._fit_outlier_detection_model
+
+        def spy(self, reporting_units, response_variable, z):
+            out = orig(self, reporting_units, response_variable, z)
+            consulted.append((response_variable, sorted(out.geographic_unit_fips)))
+            return out
+
+        CombinedDataHandler._fit_outlier_detection_model = spy
+        try:
+            mpk, kwargs = E.call_kwargs(units, cfg)
+            for k in ("fit_turnout_outlier_model", "fit_margin_outlier_model"):
+                if k not in mp:
+                    mpk.pop(k, None)  # leave the library default (enabled) in force
+            from elexmodel.client import ModelClient
+
+            baseline, feed = E.frames(units, cfg)
+            try:
+                tabs = ModelClient().get_estimates(feed, E.ELECTION_ID, "G", list(est), prediction_intervals=[0.7], percent_reporting_threshold=100, geographic_unit_type="precinct",
+                                                   raw_config=E.raw_config(cfg), preprocessed_data=baseline, model_parameters=mpk, **kwargs)
+                err = None
+            except Exception as e:
+                tabs, err = None, e
+        finally:
+            CombinedDataHandler._fit_outlier_detection_model = orig
+        runs += 1
+        ctx = f"client fit_turnout_outlier_model={case['turnout_model']} fit_margin_outlier_model={case['margin_model']} estimands={est}"
+        t_on = case["turnout_model"] is not False  # the documented default is enabled
+        m_on = case["margin_model"] is not False and "margin" in est
+        names = {c[0] for c in consulted}
+        if err is not None:
+            viol("client-run-raised", f"{ctx}: {type(err).__name__}: {str(err)[:200]}")
+        else:
+            if ("turnout_factor" in names) != t_on:
+                viol("outlier-switch-not-honoured", f"{ctx}: turnout outlier model {'was' if 'turnout_factor' in names else 'was not'} consulted")
+            if ("results_normalized_margin" in names) != m_on:
+                viol("outlier-switch-not-honoured", f"{ctx}: margin outlier model {'was' if 'results_normalized_margin' in names else 'was not'} consulted")
+            flagged = {}
+            for var, ids in consulted:
+                for uid in ids:
+                    flagged.setdefault(uid, "non-modeled: strange turnout factor modeled" if var == "turnout_factor" else "non-modeled: strange margin change modeled")
+            got = {r["geographic_unit_fips"]: r["unit_category"] for r in E.tab_rows(E.table_to_obj(tabs["unit_data"]))}
+            cats = R.categorize(units, cfg)
+            for uid, c in cats.items():
+                exp = flagged.get(uid, c["category"]) if c["kind"] == "fit" else c["category"]
+                if got.get(uid) != exp:
+                    viol("client-outlier-category", f"{ctx}: unit {uid} reported as {got.get(uid)!r}, expected {exp!r} (flagged: {flagged})")
+            cov["client_outlier_runs"] += 1
+            if flagged:
+                cov["client_outlier_runs_with_flagged_units"] += 1
+        outcomes.append(str(sorted(names)))
         nontrivial = True
     elif kind == "client":
         mp = {}
